@@ -764,7 +764,7 @@ func (s *vfC11clSys) monitors(when string) {
 		if got := s.tagged(r); got != (n >= 1) {
 			class := "hop-tag-not-exact"
 			if s.second[r] {
-				class = "hop-tag-refcount-broken-by-second-close"
+				class = "L2:hop-tag-refcount-broken-by-second-close" // as coded (Conn.Close untags on every call); an observation: the client's own connection-manager tag is not a clause of C11
 			}
 			s.mismatch(class, fmt.Sprintf("%s: relay %s carries the tag %q: %v, with %d circuits open through it", when, r, vfC11clTag, got, n), n >= 1, got)
 		}
@@ -1102,7 +1102,7 @@ func (s *vfC11clSys) opRespond(op vfh.Op) {
 		s.mismatch("connection-iff-status-ok", fmt.Sprintf("dial %d, relay answered %q: connection made: %v", i, a, ok), op.B("ok"), ok)
 	}
 	if ok {
-		s.checkConn(fmt.Sprintf("dialled connection %d (answer %q)", i, a), d.conn, d.lim, d.r, s.v.id(d.d))
+		s.checkConn(fmt.Sprintf("dialled connection %d (answer %q)", i, a), d.conn, d.lim, d.r, s.v.id(d.d), d.pipe)
 		u := s.up.pendingSlots()[i]
 		if u.dir != network.DirOutbound || u.p != s.v.id(d.d) || u.t != transport.Transport(s.cl) {
 			s.mismatch("upgrade-arguments", fmt.Sprintf("dial %d: Upgrade called with dir %v peer %s", i, u.dir, u.p), "outbound "+d.d, fmt.Sprint(u.dir, u.p))
@@ -1114,10 +1114,25 @@ func (s *vfC11clSys) opRespond(op vfh.Op) {
 }
 
 // checkConn: K4 and the shape of a relayed connection (conn.go)
-func (s *vfC11clSys) checkConn(what string, c *Conn, lim, r string, remote peer.ID) {
+func (s *vfC11clSys) checkConn(what string, c *Conn, lim, r string, remote peer.ID, pipe *vfC11clPipe) {
 	if c == nil {
 		s.mismatch("conn-type", what+": not a *client.Conn", "*Conn", "nil")
 		return
+	}
+	// the handshake's deadlines are gone ("reset stream deadline as message has been read"), bytes pass both ways
+	if rd, wd := pipe.ends[0].deadlines(); !rd.IsZero() || !wd.IsZero() {
+		s.mismatch("handshake-deadline-left-on-connection", fmt.Sprintf("%s: the stream of the relayed connection still has the deadlines read %v / write %v of the handshake", what, rd, wd), "none", fmt.Sprint(rd, wd))
+	}
+	s.seq++
+	ping, pong := []byte(fmt.Sprintf("ping-%d", s.seq)), []byte(fmt.Sprintf("pong-%d", s.seq))
+	pipe.ends[1].drain()
+	pipe.ends[1].Write(ping)
+	buf := make([]byte, 64)
+	n, err := c.Read(buf)
+	c.Write(pong)
+	back, _, _ := pipe.ends[1].drain()
+	if err != nil || string(buf[:n]) != string(ping) || string(back) != string(pong) {
+		s.mismatch("connection-does-not-carry-data", fmt.Sprintf("%s: read %q (%v) of %q, the far end got %q of %q", what, buf[:n], err, ping, back, pong), string(ping), string(buf[:n]))
 	}
 	st := c.Stat()
 	if st.Limited != (lim != "none") {
@@ -1312,7 +1327,7 @@ func (s *vfC11clSys) checkStopOutcome(op vfh.Op, in *vfC11clInc, out string, acc
 			}
 		}
 		if in.st == "open" {
-			s.checkConn(what+" accepted", in.conn, in.lim, in.r, in.src)
+			s.checkConn(what+" accepted", in.conn, in.lim, in.r, in.src, in.pipe)
 			if len(in.answers) != 1 || in.answers[0] != "OK" {
 				s.mismatch("accepted-without-ok", fmt.Sprintf("%s: accepted, the relay read the answers %v", what, in.answers), "OK", in.answers)
 			}
@@ -1364,7 +1379,7 @@ func (s *vfC11clSys) opAccept(op vfh.Op) {
 		if !returned || r.err != nil || in == nil || in.st != "open" || in.conn == nil || manet.Conn(in.conn) != r.c {
 			s.mismatch("stop-not-delivered", fmt.Sprintf("Accept caller %d should return the connection of STOP stream %d; returned %v (%v)", k, op.I("j"), returned, r.err), "delivered", fmt.Sprint(returned, r.err))
 		} else {
-			s.checkConn(fmt.Sprintf("STOP stream %d accepted by caller %d", in.slot, k), in.conn, in.lim, in.r, in.src)
+			s.checkConn(fmt.Sprintf("STOP stream %d accepted by caller %d", in.slot, k), in.conn, in.lim, in.r, in.src, in.pipe)
 		}
 	}
 	exp := vfC11clInts(op.L("resets"))
